@@ -221,7 +221,7 @@ def _make_observed(L: Lib) -> type:
             if orig is not None:
 
                 def _on_stop(expected: bool) -> None:
-                    w.rec("on_stop", conn=self._oid, expected=bool(expected))
+                    w.rec("on_stop", conn=self._oid, expected=bool(expected), is_connected=bool(self.is_connected), state=self.connection_state.name)
                     orig(expected)
 
                 on_stop = _on_stop
